@@ -332,7 +332,7 @@ def plan (tier, seed):
   if tier == "quick":
     return ([dict(mode="single", n=4000, sub=i) for i in range(12)] +
             [dict(mode="table", n=500, maxn=8, sub=i) for i in range(4)])
-  return ([dict(mode="single", n=120000, sub=i) for i in range(24)] +
+  return ([dict(mode="single", n=250000, sub=i) for i in range(32)] +
           [dict(mode="table", n=12000, maxn=32, sub=i) for i in range(16)])
 
 
